@@ -36,6 +36,7 @@ fn dispatch(a: &Args) {
         "cmds_replay" => vharness::cmdrec::cmds_replay(&a),
         "fcnt" => vharness::macdrv::vh_fcnt(&a),
         "phy" => vharness::phydrv::vh_phy(&a),
+        "phymc" => vharness::phydrv::vh_phymc(&a),
         "phyreplay" => vharness::phydrv::vh_phyreplay(&a),
         "fetch" => vharness::wirerec::vh_fetch(&a),
         "decode" => vharness::wirerec::vh_decode(&a),
